@@ -427,10 +427,18 @@ func panickingCallbackRun(e *concEnv) string {
 		{"Reduce", func(b *bundle.Bundle, boom func()) {
 			bundle.Reduce(b, func(n int, t bundle.Token) int { boom(); return n + 1 })
 		}},
-		{"Filter", func(b *bundle.Bundle, boom func()) { b.Filter(bundle.Predicate(func(bundle.Token) bool { boom(); return true })) }},
-		{"Select", func(b *bundle.Bundle, boom func()) { b.Select(bundle.Predicate(func(bundle.Token) bool { boom(); return true })) }},
-		{"Any", func(b *bundle.Bundle, boom func()) { b.Any(bundle.Predicate(func(bundle.Token) bool { boom(); return false })) }},
-		{"Count", func(b *bundle.Bundle, boom func()) { b.Count(bundle.Predicate(func(bundle.Token) bool { boom(); return true })) }},
+		{"Filter", func(b *bundle.Bundle, boom func()) {
+			b.Filter(bundle.Predicate(func(bundle.Token) bool { boom(); return true }))
+		}},
+		{"Select", func(b *bundle.Bundle, boom func()) {
+			b.Select(bundle.Predicate(func(bundle.Token) bool { boom(); return true }))
+		}},
+		{"Any", func(b *bundle.Bundle, boom func()) {
+			b.Any(bundle.Predicate(func(bundle.Token) bool { boom(); return false }))
+		}},
+		{"Count", func(b *bundle.Bundle, boom func()) {
+			b.Count(bundle.Predicate(func(bundle.Token) bool { boom(); return true }))
+		}},
 		{"Verify", func(b *bundle.Bundle, boom func()) {
 			b.Verify(context.Background(), bundle.VerifierFunc(func(ctx context.Context, perm bundle.Macaroon, diss []bundle.Macaroon) bundle.VerificationResult {
 				boom()
@@ -549,6 +557,97 @@ func returnedValuesRun(e *concEnv) string {
 	return "returned-values-stable"
 }
 
+// two bundles parsed INDEPENDENTLY from one header (different mutexes) and verified through ONE verification
+// cache: nothing the one does may show in the other - a cache that hands the first bundle's token object (or
+// caveat set) to the second makes every Attenuate of the one a write into the other, under the wrong lock
+func sharedCacheRun(e *concEnv) string {
+	ctx := context.Background()
+	cache := bundle.NewVerificationCache(bundle.WithKey([]byte("kid"), e.key, nil), time.Hour, 64)
+	mk := func() *bundle.Bundle {
+		b, err := bundle.ParseBundle(concLoc, e.hdr)
+		if err != nil {
+			return nil
+		}
+		return b
+	}
+	a, b, c := mk(), mk(), mk()
+	if a == nil || b == nil || c == nil {
+		return "harness-error"
+	}
+	dis := func(cs []macaroon.Caveat) ([]macaroon.Caveat, error) { return nil, nil }
+	// identical discharges in all three (the hit needs the same candidate strings): discharge once, re-parse
+	a.Discharge(concTP, e.ka, dis)
+	hdr := a.Header()
+	a, _ = bundle.ParseBundle(concLoc, hdr)
+	b, _ = bundle.ParseBundle(concLoc, hdr)
+	c = a.Clone()
+	if a == nil || b == nil {
+		return "harness-error"
+	}
+	if _, err := a.Verify(ctx, cache); err != nil { // miss: stored
+		return "harness-error(verify)"
+	}
+	setsB, err := b.Verify(ctx, cache) // hit
+	if err != nil {
+		return "harness-error(verify b)"
+	}
+	if _, err := c.Verify(ctx, cache); err != nil { // hit
+		return "harness-error(verify c)"
+	}
+	view := func(x *bundle.Bundle, sets []*macaroon.CaveatSet) string {
+		var sb strings.Builder
+		sb.WriteString(x.Header() + "|" + fmt.Sprint(x.Len()) + "|")
+		for _, cs := range sets {
+			sb.WriteString(sxCavs(cs.Caveats) + ";")
+		}
+		if err := x.Validate(&flyio.Access{OrgID: p64(1), Action: resset.ActionRead}); err != nil {
+			sb.WriteString("|refused")
+		} else {
+			sb.WriteString("|cleared")
+		}
+		return sb.String()
+	}
+	beforeB, beforeC := view(b, setsB), c.Header()
+	var wg sync.WaitGroup
+	stop := make(chan struct{})
+	changed := int32(0)
+	for i := 0; i < 3; i++ {
+		wg.Add(1)
+		go func() { // readers of b and c, each under its OWN bundle's lock only
+			defer wg.Done()
+			for {
+				select {
+				case <-stop:
+					return
+				default:
+					if b.Header() != strings.SplitN(beforeB, "|", 2)[0] || c.Header() != beforeC {
+						atomic.StoreInt32(&changed, 1)
+					}
+					_ = b.Validate(&flyio.Access{OrgID: p64(1), Action: resset.ActionRead})
+					_ = c.String()
+				}
+			}
+		}()
+	}
+	for i := 0; i < 40; i++ {
+		a.Attenuate(&macaroon.ValidityWindow{NotBefore: 0, NotAfter: int64(4_000_000_000 + i)})
+		if i%8 == 0 {
+			a.Verify(ctx, cache)
+		}
+	}
+	close(stop)
+	wg.Wait()
+	switch {
+	case atomic.LoadInt32(&changed) != 0:
+		return "wrong-answer(readers of an untouched bundle saw its header change while another bundle was attenuated)"
+	case view(b, setsB) != beforeB:
+		return "wrong-answer(an independently parsed bundle changed after operations on another one sharing its verification cache)"
+	case c.Header() != beforeC:
+		return "wrong-answer(a clone changed after operations on its original, both verified through one cache)"
+	}
+	return "bundles-sharing-a-cache-stay-apart"
+}
+
 func famConc(r *Rng, o *Out, tier string) {
 	e := newConcEnv()
 	g, iters, wd := 4, 150, 4*time.Second
@@ -575,6 +674,7 @@ func famConc(r *Rng, o *Out, tier string) {
 	o.emit("(const slow-writer)", slowWriterRun(e))
 	o.emit("(const panicking-callbacks)", panickingCallbackRun(e))
 	o.emit("(const returned-values-stable)", returnedValuesRun(e))
+	o.emit("(const bundles-sharing-a-cache-stay-apart)", sharedCacheRun(e))
 	hangs := 0
 	for _, a := range all {
 		for _, w := range writers {
